@@ -1,6 +1,9 @@
 package doif
 
 import (
+	"strconv"
+	"time"
+
 	insaneJSON "github.com/ozontech/insane-json"
 
 	vf "github.com/ozontech/file.d/zzverif"
@@ -264,7 +267,7 @@ func VerifH_C14_lenType() {
 		doc = append(doc, `]}`...)
 		typ, arrLen = "array", n
 	case 4:
-		objs := []string{`{}`, `{"k":"v"}`, `{"k":"v","n":[1]}`, `{"k":{}}`}
+		objs := []string{`{}`, `{"k":"v"}`, `{"k":"v","n":[1]}`, `{"k":{}}`, `{"k":"a\nb"}`, `{"n":["q\"x",{"u":"\u00e9"}]}`}
 		o := objs[vf.Choose("object", len(objs))]
 		doc = []byte(`{"f":` + o + `}`)
 		typ, byteLen = "object", len(o)
@@ -461,4 +464,68 @@ func VerifH_C14_ctor() {
 	}
 	vf.Assert(same, "rule-tree-is-the-described-tree")
 	vf.Reach("built")
+}
+
+// C14.H6: timestamp comparison: field time (unix seconds) against a constant or "now" reference,
+// with shift; the update interval widens only the "now" reference.
+func VerifH_C14_tsCmp() {
+	cmps := []string{"lt", "le", "gt", "ge", "eq", "ne"}
+	ci := vf.Choose("cmp", 6)
+	shiftS := []int64{-5, 0, 5}[vf.Choose("shift", 3)]
+	interval := 10 * time.Second // what the rule constructor gives every mode by default
+	nowMode := vf.Choose("now-mode", 2) == 1
+	base := int64(1000)
+	if nowMode {
+		base = time.Now().Unix()
+	}
+	mode := "const"
+	if nowMode {
+		mode = "now"
+	}
+	node, err := NewTsCmpOpNode("ts", "unixtime", cmps[ci], mode, time.Unix(base, 0), time.Duration(shiftS)*time.Second, interval)
+	if err != nil {
+		vf.Fail("constructor-rejects-valid-rule")
+		return
+	}
+	ref := base + shiftS
+	if nowMode {
+		ref += int64(interval / time.Second)
+	}
+	// the event's time: around the reference, exactly on it, far away; or not a time at all
+	delta := []int64{-20, -10, -5, -1, 0, 1, 5, 10, 20}[vf.Choose("delta", 9)]
+	ts := ref + delta
+	docs := []string{`{"ts":"` + strconv.FormatInt(ts, 10) + `"}`, `{"ts":` + strconv.FormatInt(ts, 10) + `}`, `{"ts":"garbage"}`, `{"other":1}`}
+	di := vf.Choose("doc", len(docs))
+	root := insaneJSON.Spawn()
+	defer insaneJSON.Release(root)
+	if root.DecodeString(docs[di]) != nil {
+		vf.Fail("document-decodes")
+		return
+	}
+	got := node.Check(NewEventData(root))
+	want := false
+	if di == 0 {
+		switch ci {
+		case 0:
+			want = delta < 0
+		case 1:
+			want = delta <= 0
+		case 2:
+			want = delta > 0
+		case 3:
+			want = delta >= 0
+		case 4:
+			want = delta == 0
+		case 5:
+			want = delta != 0
+		}
+	}
+	if vf.Param("twin", 0) == 1 {
+		vf.Assert(got != want, "ts-cmp-semantics")
+		return
+	}
+	vf.Assert(got == want, "ts-cmp-semantics")
+	if got {
+		vf.Reach("ts-matched")
+	}
 }
